@@ -84,8 +84,9 @@ def dimse_bytes(kind, msg_id=1, nbytes=64, max_pdu=16382, context_id=None):
 class Recorder:
     """Records every notification event of every association of one side, in order, with the virtual time."""
 
-    def __init__(self, world, side, raise_at=None):
+    def __init__(self, world, side, raise_at=None, on_event=None):
         self.w, self.side = world, side
+        self.on_event = on_event or {}  # event name -> callable(event), called (once) from inside the notification handler
         self.events = []  # (t, assoc_key, name, detail)
         self.assocs = {}  # id(assoc) -> (index, assoc)
         self.raise_at = set(raise_at or ())
@@ -116,6 +117,9 @@ class Recorder:
             elif name in ("EVT_ACSE_SENT", "EVT_ACSE_RECV"):
                 detail = type(event.primitive).__name__
             self.events.append((round(self.w.now - 1000.0, 6), key, name, detail))
+            cb = self.on_event.pop(name, None)
+            if cb is not None:
+                cb(event)
             idx = self.count
             self.count += 1
             if idx in self.raise_at:
@@ -272,7 +276,7 @@ def run(sc, chooser=None, raise_plan=None, keep_trace=False):
             chooser = S.ReplayChooser(sched["resolved"], sched.get("nudges", ()))
         else:
             chooser = S.Chooser(sched.get("policy", "fifo"), sched.get("seed", 0), sched.get("preemptions", ()), sched.get("nudges", ()),
-                                max_steps=sc.get("max_steps", 6000))
+                                max_steps=sc.get("max_steps", 6000), drift=sched.get("drift", 0.0))
     raise_plan = raise_plan or {}
     out = {"handler_log": [], "requestors": [], "raw": []}
     with S.World(chooser, max_steps=sc.get("max_steps", 6000), quantum=sc.get("quantum", S.QUANTUM)) as w:
@@ -306,6 +310,23 @@ def run(sc, chooser=None, raise_plan=None, keep_trace=False):
                     out["shutdown_done"] = round(w.now - 1000.0, 4)
 
                 w.spawn(shutdown, "acc-shutdown")
+            if acc.get("abort_on"):
+                gate = S.VEvent()
+
+                def on_evt(event, gate=gate):
+                    gate.set()
+                    S.VTime.sleep(0)  # the handler takes a moment: the other thread gets a chance to run
+
+                rec_acc.on_event[acc["abort_on"]] = on_evt
+
+                def abort_when():
+                    gate.wait(timeout=8)
+                    if gate.is_set():
+                        for a in acc_ae.active_associations:
+                            a.abort()
+                    out["abort_on_done"] = round(w.now - 1000.0, 4)
+
+                w.spawn(abort_when, "acc-abort-on")
             if acc.get("release_at") is not None:
                 def releaser():
                     S.VTime.sleep(acc["release_at"])
@@ -328,6 +349,22 @@ def run(sc, chooser=None, raise_plan=None, keep_trace=False):
                 res = {"steps": [], "finished": False, "_rec": rec, "assoc": None}
                 out["requestors"].append(res)
                 w.spawn(lambda rq=rq, rec=rec, res=res, i=i: _run_requestor_script(w, rq, to, rec, res, i), f"user{i}")
+                if rq.get("abort_on"):
+                    gate = S.VEvent()
+
+                    def on_evt_r(event, gate=gate):
+                        gate.set()
+                        S.VTime.sleep(0)
+
+                    rec.on_event[rq["abort_on"]] = on_evt_r
+
+                    def abort_when_r(res=res, gate=gate):
+                        gate.wait(timeout=8)
+                        a = res.get("assoc")
+                        if gate.is_set() and a is not None:
+                            a.abort()
+
+                    w.spawn(abort_when_r, f"user{i}-abort-on")
                 if rq.get("abort_at") is not None:
                     def aborter(rq=rq, res=res):
                         S.VTime.sleep(rq["abort_at"])
